@@ -238,22 +238,41 @@ class Kernel:
     def make_cb(self, spec: dict[str, Any], cid: int) -> Any:
         kern = self
 
-        def run(args: tuple[Any, ...]) -> None:
+        def begin(args: tuple[Any, ...]) -> Any:
             ctx = kern.ctxs[cid]
             arg = "-" if not spec["pass"] else exc_name(args[0]) if args else "missing"
             n = kern.cb_runs[(cid, spec["id"])] = kern.cb_runs.get((cid, spec["id"]), 0) + 1
             if n > 3:
                 # invoked again and again: say so, and stop feeding the loop (no body, no registrations)
                 kern.tdlog.append(f"td+ {spec['id']} RUNAWAY")
-                return
+                return None
             kern.tdlog.append(f"td+ {spec['id']} {arg}")
-            outs: list[str] = []
-            for b in spec["body"]:
-                outs += kern.body_op(ctx, cid, b)
+            return ctx
+
+        def finish(ctx: Any, outs: list[str]) -> None:
             if outs:
                 kern.tdlog.append("body [" + ", ".join(outs) + "]")
             for r in spec["regs"]:
                 ctx.add_teardown_callback(kern.make_cb(r, cid), r["pass"])
+
+        def run(args: tuple[Any, ...]) -> None:
+            ctx = begin(args)
+            if ctx is None:
+                return
+            outs: list[str] = []
+            for b in spec["body"]:
+                outs += kern.body_op(ctx, cid, b)
+            finish(ctx, outs)
+
+        async def arun(args: tuple[Any, ...]) -> None:
+            # the same in an asynchronous callback, which may also *await* a lookup
+            ctx = begin(args)
+            if ctx is None:
+                return
+            outs: list[str] = []
+            for b in spec["body"]:
+                outs += await kern.body_get(ctx, cid, b) if b["op"] == "get" else kern.body_op(ctx, cid, b)
+            finish(ctx, outs)
 
         def tail(args: tuple[Any, ...]) -> None:
             if spec.get("reraise") and spec["pass"] and args:
@@ -279,7 +298,7 @@ class Kernel:
                 except anyio.get_cancelled_exc_class():
                     cancelled_at_first_checkpoint(args)
                     raise
-                run(args)
+                await arun(args)
                 mid = kern.mid.get(cid)
                 if mid is not None and mid[0] == spec["id"]:
                     # the scope around the block is cancelled while this callback is running (it has done its
@@ -310,10 +329,22 @@ class Kernel:
             return CallableObject(cb, falsy=spec["id"] % 5 == 4)
         return cb
 
+    async def body_get(self, ctx: Any, cid: int, b: dict[str, Any]) -> list[str]:
+        tok = ACTIVE_CTX.set(cid)
+        try:
+            try:
+                return [val_name(await ctx.get_resource(TYPES[b["ty"]], b["name"], optional=b["opt"]))]
+            except Exception as e:  # noqa: BLE001
+                return self.exc_out(e, (TYPES[b["ty"]], b["name"]))
+        finally:
+            ACTIVE_CTX.reset(tok)
+
     def body_op(self, ctx: Any, cid: int, b: dict[str, Any]) -> list[str]:
         n0 = len(self.events)
         tok = ACTIVE_CTX.set(cid)
         try:
+            if b["op"] == "get":
+                return ["badOp"]        # (only an asynchronous callback can await)
             if b["op"] == "add":
                 r = self.guard(lambda: ctx.add_resource(TYPES[0](b["v"]), b["name"], [TYPES[i] for i in b["types"]]))
             elif b["op"] == "addf":
